@@ -42,3 +42,15 @@ claim('C02', 'c02_lists.c',
       'invariant (chain length, back links, tail) holds afterwards, get(i) agrees for i in [-n,n], an iterator yields exactly count elements in '
       'order, and no access leaves the container. All three classes are compared with the same oracle, hence interchangeable.',
       'DESIGN.md section 4, C02')
+claim('C04', 'c04_vectors.c',
+      'CBMC inductive-step check: vector insert/remove/find/contains/iteration/to_array of the three classes from an arbitrary sorted state vs a sorted-multiset oracle',
+      'For each class and every vector operation, from every sorted state (symbolic values with a symbolic probe covering below-min, above-max, gaps and duplicates; '
+      'enumerated value patterns where the array implementation turns positions into block-move sizes) the solver shows the contents are exactly the '
+      'inserted-and-not-removed objects, in ascending order, with a valid representation, and find/contains/remove answer as the multiset would.',
+      'DESIGN.md section 4, C04')
+claim('C03', 'c03_maps.c',
+      'CBMC inductive-step check: map set/get/remove/has_key/has_value/count/get_keys/get_values/get_pairs/iteration of the three classes from an arbitrary valid state vs an ideal dictionary; own-copy and use-after-removal checks',
+      'For each class and every map operation, from every state with strictly ascending keys (symbolic keys/values/probes; enumerated key subsets for the array block moves) '
+      'the solver shows results equal an ideal dictionary, set reports replacement, the map keeps its own copies (the caller\\'s key and value are deleted before the read-back), '
+      'a removed pair is handed back once and unreachable afterwards, outputs are in ascending key order, and the representation invariant (incl. back links and tail) holds after every removal.',
+      'DESIGN.md section 4, C03')
